@@ -79,6 +79,29 @@ def documents(rng, n, depth=4, deep_every=25, f32=False):
     return out
 
 
+def unordered(v):
+    """v with every map's entries sorted by key: equality up to entry order only."""
+    if isinstance(v, dict):
+        return ("map", tuple(sorted((k, unordered(x)) for k, x in v.items())))
+    if isinstance(v, (list, tuple)):
+        return ("seq", tuple(unordered(x) for x in v))
+    if isinstance(v, float):
+        return ("f", gen._bits(v))
+    if isinstance(v, gen.F32):
+        return ("f32", gen._bits(v.value))
+    return (type(v).__name__, v)
+
+
+def classify_toml(got, v):
+    """'exact' (TOML's required reordering only), 'regrouped' (the toml crate's extra regrouping of arrays that
+    contain a table), or None."""
+    if gen.values_equal(got, gen.toml_reorder(v)) or gen.values_equal(got, v):
+        return "exact"
+    if gen.values_equal(got, gen.toml_reorder_xt(v)):
+        return "regrouped"
+    return None
+
+
 def expected_in(v, to):
     """Candidates for what an independent reader of `to` should see for v."""
     if to == "toml":
